@@ -6,7 +6,7 @@
    default binder, literal folding and sugar vs spelled-out literals concern the
    wbnf parser and the compiler (syntax/compile.go), which are not modelled: they
    are decided by the metamorphic run original-vs-rewritten on the implementation. *)
-From Arrai Require Import Base.Val Spec.SetAlg Eval.Interp Proofs.EquivP Proofs.FuelP.
+From Arrai Require Import Base.Val Spec.SetAlg Eval.Interp Proofs.EquivP Proofs.FuelP Gen.Prec Sys.Prec.
 
 Theorem C08_let_is_arrow :
   forall fuel rho p e1 e2,
@@ -71,3 +71,16 @@ Theorem C08_meaning_independent_of_fuel :
   forall n m rho e, eval n rho e <> OutOfFuel -> eval m rho e <> OutOfFuel -> eval n rho e = eval m rho e.
 Proof. exact eval_fuel_independent. Qed.
 Print Assumptions C08_meaning_independent_of_fuel.
+
+(* the grouping the running parser and compiler give to `x o1 y o2 z` for every ordered pair of 23 binary
+   operators (regenerated from the code on every check) is a precedence order: levels exist that explain every
+   pair, and operators of one level share their associativity ... *)
+Theorem C08_operator_grouping_is_a_precedence_order : consistent prec_table = true.
+Proof. exact current_table_is_a_precedence_order. Qed.
+Print Assumptions C08_operator_grouping_is_a_precedence_order.
+
+(* ... and for arithmetic it is the documented one: ^ over * / % over + -, the latter five to the left, ^ to the right *)
+Theorem C08_arithmetic_grouping_is_as_documented :
+  forall o1 o2, In o1 arith_ops -> In o2 arith_ops -> lookup prec_table o1 o2 = documented o1 o2.
+Proof. exact (arithmetic_pairs prec_table current_arithmetic_is_as_documented). Qed.
+Print Assumptions C08_arithmetic_grouping_is_as_documented.
